@@ -36,7 +36,7 @@ ASSUMPTIONS = [
     "leaf keeps the operator Hermitian (an unconstrained leaf that merely happens to be symmetric and is flagged/auto-detected Hermitian "
     "is outside the generator: the flag is a promise about the whole parametrisation)",
     "iterative forward/backward solvers run with rtol=1e-10, atol=1e-12 (max_niter raised to 10n+20) except in the 'default tolerance' "
-    "classes (rtol 1e-6, cond <= 10) whose comparison tolerance is scaled accordingly and whose second order is compared with the scaled bound",
+    "classes (forward tolerance 'default', backward settings 'default' and 'cg_default': rtol 1e-6, cond <= 12) whose comparison tolerance is scaled accordingly",
     "comparison: |g - g_ref| <= tol * (|g_ref| + 0.02 * max_leaf |g_ref|) per leaf, tol = max(2e-8, 300 * t * cond) first order, "
     "max(2e-7, 300 * t * cond^2) second order, t = loosest tolerance among the solver calls the spy recorded (0 for direct solves)",
     "broyden1 only for n <= 5, <= 2 columns and batch size <= 3 (cost); jac operator only real, unbatched",
@@ -153,7 +153,7 @@ def _constrain(d, rng):
             d["bck"] = "default"
     if d["akind"] in AKINDS_HERM and d["spectrum"] == "nonherm":
         d["spectrum"] = rng.choice(["spd", "indef"])
-    if d["tol"] == "default" or d["bck"] == "cg_default":
+    if d["tol"] == "default" or d["bck"] in ("cg_default", "default"):
         d["kappa"] = min(d["kappa"], 10.0)
     if d["special"] == "unusedA" and d["akind"] not in ("mv_inside", "herm_inside", "mm_list"):
         d["akind"] = rng.choice(["mv_inside", "mm_list"] if d["spectrum"] == "nonherm" else ["mv_inside", "herm_inside", "mm_list"])
@@ -604,6 +604,9 @@ def run_case(desc):
     complexE = False
     # a real-dtype E in a complex system (its gradient must come out real)
     real_e = desc["special"] == "realE" and dt.is_complex and emode in ("E", "EM")
+    # classes in which a solver may run with its default tolerance (1e-6) are kept at cond <= 12
+    loose = desc["tol"] == "default" or bck in ("default", "cg_default")
+    kbound = 12.0 if loose else min(KMAX, 4 * desc["kappa"])
     if emode in ("E", "EM"):
         scale = 1.0
         for attempt in range(10):
@@ -618,7 +621,7 @@ def run_case(desc):
             S0 = A0.unsqueeze(-3) - E0.reshape(*E0.shape, 1, 1) * Md0.unsqueeze(-3)
             sv = torch.linalg.svdvals(S0)
             kap = float((sv[..., 0] / sv[..., -1]).max())
-            if kap <= min(KMAX, 4 * desc["kappa"]):
+            if kap <= kbound:
                 break
             scale *= 0.4
         else:
@@ -644,7 +647,7 @@ def run_case(desc):
     if desc["special"] == "frozenA":
         # (the point at which a Jacobian operator is taken must require grad: xitorch.grad.jac rejects it otherwise)
         cand = [k for k in a.leaves if k not in a.unused and k not in shared and k != "A.x0"]
-        if len(cand) >= 2 or akind == "jac":
+        if len(cand) >= 2 or (cand and akind == "jac"):
             frozen = [cand[rng.randrange(len(cand))]]
         if m is not None and emode == "EM" and rng.random() < 0.5:
             frozen += [k for k in m.leaves][:1]
